@@ -116,9 +116,27 @@ def build(ctx, chain=False, discrete=False):
     env = TradingEnv(action_space=space, transmitter=tr, state=ep.Rec(sink), reward=rw, latency=L, steps_delay=d,
                      broker_fees=fees, initial_cash=cash0)
     sink.env = env
-    cfg = dict(cs=cs, grid=grid, L=L, d=d, fees=fees, rate=rate, evs=evs, rw=rw, cash0=cash0, i0=i0, allocs=allocs,
+    cfg = dict(transmitter=tr, cs=cs, grid=grid, L=L, d=d, fees=fees, rate=rate, evs=evs, rw=rw, cash0=cash0, i0=i0, allocs=allocs,
                chain=chain, userate=userate, gap=gap, discrete=discrete)
     return env, sink, cfg
+
+
+def rebuild_with_latency(ctx, cfg, env):
+    """A NEW TradingEnv on the SAME Transmitter (data loaded once, environment rebuilt)
+    with a different latency: the latent / non-latent split must follow the new latency."""
+    rng = ctx.rng
+    gap = cfg["gap"]
+    choices = [x for x in (0, 5, 30) if x < gap and x != cfg["L"]]
+    if not choices:
+        return None
+    L2 = rng.choice(choices)
+    sink = ep.Sink()
+    env2 = TradingEnv(action_space=env.action_space, transmitter=cfg["transmitter"],
+                      state=ep.Rec(sink), reward=cfg["rw"], latency=L2, steps_delay=cfg["d"], broker_fees=cfg["fees"],
+                      initial_cash=cfg["cash0"])
+    sink.env = env2
+    cfg2 = dict(cfg, L=L2)
+    return env2, sink, cfg2
 
 
 def interest_ref(cash, rate, markup, secs):
